@@ -53,6 +53,9 @@ struct C01Vis {
 			int const* p2 = std::addressof(call_ix(v, ix)); if(p2 != p1) violation(K + "call-vs-bracket", "v(i...) != v[i]... at " + join(ix));
 			int const* p3 = std::addressof(apply_ix(v, ix)); if(p3 != p1) violation(K + "apply-vs-bracket", "apply(tuple) != v[i]... at " + join(ix));
 			int const* p4 = cur_addr<D>(home, ix); if(p4 != p1) violation(K + "cursor-vs-bracket", "home()[i]... != v[i]... at " + join(ix));
+			{ auto tup = std::apply([](auto... q) { return std::make_tuple(q...); }, [&] { std::array<L, std::size_t(D)> a{}; for(int d = 0; d < D; ++d) a[std::size_t(d)] = ix[std::size_t(d)]; return a; }());
+				int const* p4b = std::apply([&](auto... q) { return std::addressof(home(q...)); }, tup); if(p4b != p1) violation(K + "cursor-call-vs-bracket", "home()(i...) != v[i]... at " + join(ix));
+				auto c2 = home; c2 += tup; int const* p4c = std::addressof(*c2); if(p4c != p1) violation(K + "cursor-advance-vs-bracket", "*(home() += tuple) != v[i]... at " + join(ix)); }
 			int const* p5 = std::addressof(*eit); if(p5 != p1) violation(K + "elements-iter", "k-th elements() position != k-th canonical tuple, k=" + std::to_string(k));
 			int const* p6 = std::addressof(els[k]); if(p6 != p1) violation(K + "elements-index", "elements()[k] != k-th canonical tuple, k=" + std::to_string(k));
 			++elems_compared;
